@@ -51,6 +51,36 @@ def match_known(v: Violation, prop: str, known: List[dict]):
     return None
 
 
+_RULE_CACHE = {}
+
+
+def run_rule(rule_id: str, repo: Repo) -> RuleResult:
+    """rule_id is 'K1' or 'K1@scope' (scope = named set of functions, registry.SCOPES)."""
+    base, _, scope = rule_id.partition("@")
+    key = (id(repo), base)
+    if key not in _RULE_CACHE:
+        fn = registry.RULES[base]
+        res = fn(repo)
+        if res.floor is not None and len(res.instances) < res.floor:
+            raise AnalysisError(
+                f"{base}: {len(res.instances)} instances found, below the confirmed floor {res.floor}; "
+                f"the rule no longer sees the constructs it was validated on")
+        _RULE_CACHE[key] = res
+    res = _RULE_CACHE[key]
+    if not scope:
+        return res
+    funcs = registry.SCOPES[scope]
+    out = RuleResult(rule_id, res.title + f" [scope {scope}: {', '.join(sorted(funcs))}]")
+    out.instances = [i for i in res.instances if i.function in funcs]
+    out.violations = [v for v in res.violations if v.function in funcs]
+    out.analysed = res.analysed
+    for v in out.violations:
+        pass
+    if not out.instances:
+        raise AnalysisError(f"{rule_id}: no instance of {base} inside scope {scope} ({sorted(funcs)}): anchor vanished")
+    return out
+
+
 def run_property(prop: str, tier: str, seed: int, repo: Repo = None, write_evidence: bool = True,
                  quiet: bool = False) -> int:
     t0 = time.time()
@@ -64,13 +94,7 @@ def run_property(prop: str, tier: str, seed: int, repo: Repo = None, write_evide
         stats = repo.stats()
         results: List[RuleResult] = []
         for rule_id in spec["rules"]:
-            fn = registry.RULES[rule_id]
-            res = fn(repo)
-            if res.floor is not None and len(res.instances) < res.floor:
-                raise AnalysisError(
-                    f"{rule_id}: {len(res.instances)} instances found, below the confirmed floor {res.floor}; "
-                    f"the rule no longer sees the constructs it was validated on")
-            results.append(res)
+            results.append(run_rule(rule_id, repo))
         selftest = None
         if tier == "thorough":
             from gbsa import selftest as st
